@@ -2,7 +2,7 @@
    Only the property theorems; the proofs are in Regex.v (language, derivative matcher), Routes.v (route family),
    Dispatch.v (dispatcher, mount points, pool scan), Sites.v (dispatcher of a site), Mapper.v (mapper of a site,
    map_dispatch, mapper_total), MapOut.v (stream content in both invalid_url_throws settings), Rewrite.v / RewriteSpec.v (http.rewrite rules), Examples.v (a concrete instance satisfying every hypothesis of map_dispatch). *)
-From CppcmsV Require Import Base.Tac C20.Defs C20.Regex C20.Routes C20.Dispatch C20.Routed C20.Sites C20.Mapper C20.MapAbs C20.MapRel C20.MapAt C20.Examples C20.MapOut C20.Rewrite C20.RewriteSpec C20.MapKw C20.MapBare C20.MapKwNav C20.NotFound C20.Serve C20.MapUp C20.HttpRound.
+From CppcmsV Require Import Base.Tac C20.Defs C20.Regex C20.Routes C20.Dispatch C20.Routed C20.Sites C20.Mapper C20.MapAbs C20.MapRel C20.MapAt C20.Examples C20.MapOut C20.Rewrite C20.RewriteSpec C20.MapKw C20.MapBare C20.MapKwNav C20.NotFound C20.Serve C20.MapUp C20.HttpRound C20.PoolDefs C20.PoolProofs C20.NumSpec C20.PoolSingle C20.TmplSpec C20.PoolTrace.
 Local Open Scope N_scope.
 
 (* 1. the matcher that models booster::regex::match accepts exactly the whole strings of the language *)
@@ -86,6 +86,52 @@ Proof.
       apply parse_ints_spec; exact Hz.
 Qed.
 Print Assumptions handler_arguments.
+(* the same for every integer parameter type modelled (int, unsigned, long long, unsigned long long, short, unsigned short):
+   the generic parse_url_parameter reads the group with `istream >> value` and demands that everything was consumed *)
+Theorem handler_numeric_arguments : forall t raw args,
+  arg_conv (KMapNum t) raw = Some args <->
+  forallb valid_text raw = true /\
+  exists zs, Forall2 (fun r z => parse_num t r = Some z) raw zs /\ args = map show_int zs.
+Proof.
+  intros t raw args. rewrite arg_conv_num. split; intros (Hv & zs & Hz & ->); (split; [exact Hv|]); exists zs; (split; [|reflexivity]);
+    apply parse_nums_spec; exact Hz.
+Qed.
+Print Assumptions handler_numeric_arguments.
+(* the value a numeric parameter receives lies in the range of its type (unsigned types: a minus sign is accepted by the
+   C++ library and the magnitude is negated modulo 2^bits - the model follows the library) *)
+Theorem numeric_parameter_is_in_range : forall t s z, parse_num t s = Some z ->
+  if nt_signed t then (- 2 ^ (nt_bits t - 1) <= z <= 2 ^ (nt_bits t - 1) - 1)%Z else (0 <= z <= 2 ^ nt_bits t - 1)%Z.
+Proof. exact parse_num_range. Qed.
+Print Assumptions numeric_parameter_is_in_range.
+(* declarative form: the accepted texts are exactly  white-space* sign? digit+  (num_text), and the delivered value is fixed by
+   sign, digits and type (num_value: signed - the signed value, which must be in range; unsigned - the magnitude must be in
+   range, a minus sign negates it modulo 2^bits); the reading of a text is unique *)
+Theorem numeric_parameter_text_and_value : forall t s z,
+  parse_num t s = Some z <-> exists neg ds, num_text neg ds s /\ num_value t neg ds z.
+Proof. exact parse_num_spec. Qed.
+Print Assumptions numeric_parameter_text_and_value.
+Theorem numeric_text_is_read_uniquely : forall neg1 ds1 neg2 ds2 s,
+  num_text neg1 ds1 s -> num_text neg2 ds2 s -> neg1 = neg2 /\ ds1 = ds2.
+Proof. exact num_text_unique. Qed.
+Print Assumptions numeric_text_is_read_uniquely.
+Example numeric_handlers_nonvacuous :
+  let dig := fun (n : N) => digits 24 n [] in
+  parse_num TUInt (dig 4294967295) = Some 4294967295%Z /\ parse_num TUInt (dig 4294967296) = None /\
+  parse_num TUInt (45 :: dig 1) = Some 4294967295%Z /\ parse_num TUInt (45 :: dig 4294967295) = Some 1%Z /\
+  parse_num TUInt (45 :: dig 4294967296) = None /\ parse_num TUInt [45; 48] = Some 0%Z /\
+  parse_num TLLong (dig 9223372036854775807) = Some 9223372036854775807%Z /\ parse_num TLLong (dig 9223372036854775808) = None /\
+  parse_num TLLong (45 :: dig 9223372036854775808) = Some (-9223372036854775808)%Z /\
+  parse_num TULLong (dig 18446744073709551615) = Some 18446744073709551615%Z /\ parse_num TULLong (dig 18446744073709551616) = None /\
+  parse_num TULLong (45 :: dig 1) = Some 18446744073709551615%Z /\
+  parse_num TShort (dig 32767) = Some 32767%Z /\ parse_num TShort (dig 32768) = None /\ parse_num TShort (45 :: dig 32768) = Some (-32768)%Z /\
+  parse_num TUShort (45 :: dig 1) = Some 65535%Z /\ parse_num TUShort (dig 65536) = None /\
+  parse_num TUInt [32; 43; 55] = Some 7%Z /\ parse_num TUInt [55; 32] = None /\ parse_num TUInt [45] = None /\
+  show_int 18446744073709551615 = dig 18446744073709551615 /\
+  (let o1 := DH (KMapNum TUInt) (PRoute [RLit [47]; RPar cs_dot true]) MAny 1 [1%nat] in
+   let o2 := DH KMap (PRoute [RLit [47]; RPar cs_dot true]) MAny 2 [1%nat] in
+   scan [] [o1; o2] [47; 45; 49] (Some [71; 69; 84]) = Fired 1 [dig 4294967295] /\
+   scan [] [o1; o2] (47 :: dig 4294967296) (Some [71; 69; 84]) = Fired 2 [dig 4294967296]).
+Proof. vm_compute. repeat split; reflexivity. Qed.
 Theorem mounted_takes_exactly : forall kids p sel k url c out,
   try_opt (kid_fns kids) (DM p sel k) url c = Some out <->
   exists gs, pat_match p url = Some gs /\
@@ -635,4 +681,244 @@ Example http_round_trip_nonvacuous :
   urldecode (pct_enc keep ex_url) = ex_url /\
   serve [] [] [(mp_all, build ex_root)] [104] (pct_enc keep ex_url) [71; 69; 84] = Served (RApp 0 ex_url (Fired 3 ex_ps)) /\
   urldecode [37; 52; 49; 43; 37; 122; 122; 37] = [65; 32; 122; 122].
+Proof. vm_compute. repeat split; reflexivity. Qed.
+
+(* 12. THE COMPLETE applications_pool::get_application_specific_pool (PoolDefs.v / PoolProofs.v): two lists - `apps` (factories and
+   application_specific_pools) scanned first with an early return, then `legacy_async_apps` (applications mounted as
+   intrusive_ptr) scanned to the end because dead entries are erased on the way, the first match being kept by the guard
+   `else if(!result)`.  order st = all entries of apps in registration order, then all LIVE legacy mounts in registration order. *)
+(* the selected mount is the first one of the order whose mount point matches (whole strings, see mount_point_whole_string), and
+   the sub-path handed to main() is the group selected by THAT mount point *)
+Theorem pool_selects_first_live_mount : forall st h s p id sub,
+  fst (lookup st h s p) = Some (id, sub) <->
+  exists pre mp post, order st = pre ++ (mp, id) :: post /\ mp_match mp h s p = Some sub /\ Forall (nomatch h s p) pre.
+Proof. exact lookup_first. Qed.
+Print Assumptions pool_selects_first_live_mount.
+Theorem pool_no_mount_iff_none_matches : forall st h s p,
+  fst (lookup st h s p) = None <-> Forall (nomatch h s p) (order st).
+Proof. exact lookup_none. Qed.
+Print Assumptions pool_no_mount_iff_none_matches.
+(* which list is consulted first *)
+Theorem pool_apps_list_is_consulted_first : forall st h s p r,
+  scan_apps (ps_apps st) h s p = Some r -> lookup st h s p = (Some r, st).
+Proof. exact apps_before_legacy. Qed.
+Print Assumptions pool_apps_list_is_consulted_first.
+(* dead legacy entries never win: the winner is an entry of apps or a LIVE legacy entry whose own mount point produced sub *)
+Theorem pool_destroyed_application_never_wins : forall st h s p id sub,
+  fst (lookup st h s p) = Some (id, sub) ->
+  (exists mp, In (mp, id) (ps_apps st) /\ mp_match mp h s p = Some sub) \/
+  (exists mp, In (LE mp id true) (ps_legacy st) /\ mp_match mp h s p = Some sub).
+Proof. exact dead_never_wins. Qed.
+Print Assumptions pool_destroyed_application_never_wins.
+Theorem pool_killed_mount_is_never_selected : forall st id h s p sub,
+  ~ In id (map snd (ps_apps st)) -> fst (lookup (kill st id) h s p) <> Some (id, sub).
+Proof. exact killed_mount_is_never_selected. Qed.
+Print Assumptions pool_killed_mount_is_never_selected.
+(* purge transparency: erasing the dead entries changes the answer to no request, a lookup erases dead entries only (all of them
+   when it reaches the second loop, none otherwise), and therefore answers do not depend on which lookups happened before *)
+Theorem pool_purge_is_transparent : forall st h s p, fst (lookup (purge st) h s p) = fst (lookup st h s p).
+Proof. exact purge_transparent. Qed.
+Print Assumptions pool_purge_is_transparent.
+Theorem pool_lookup_purges_exactly_the_dead : forall st h s p,
+  let st' := snd (lookup st h s p) in
+  ps_apps st' = ps_apps st /\
+  (forall e, In e (ps_legacy st') -> In e (ps_legacy st)) /\
+  (forall e, In e (ps_legacy st) -> le_live e = true -> In e (ps_legacy st')) /\
+  (scan_apps (ps_apps st) h s p = None -> forall e, In e (ps_legacy st') -> le_live e = true).
+Proof. exact lookup_purges_exactly_the_dead. Qed.
+Print Assumptions pool_lookup_purges_exactly_the_dead.
+Theorem pool_answers_do_not_depend_on_earlier_lookups : forall reqs st,
+  lookups st reqs = map (fun r => match r with (h, s, p) => fst (lookup st h s p) end) reqs.
+Proof. exact lookups_stateless. Qed.
+Print Assumptions pool_answers_do_not_depend_on_earlier_lookups.
+(* monotonicity: mounting another application later never changes where a routed request goes - within each list ... *)
+Theorem pool_later_legacy_mount_is_irrelevant : forall st mp id h s p r,
+  fst (lookup st h s p) = Some r -> fst (lookup (mount_legacy st mp id) h s p) = Some r.
+Proof. exact later_legacy_mount_irrelevant. Qed.
+Print Assumptions pool_later_legacy_mount_is_irrelevant.
+Theorem pool_later_pool_mount_is_irrelevant_for_pool_answers : forall st mp id h s p r,
+  scan_apps (ps_apps st) h s p = Some r -> lookup (mount_app st mp id) h s p = (Some r, mount_app st mp id).
+Proof. exact later_app_mount_irrelevant_for_apps. Qed.
+Print Assumptions pool_later_pool_mount_is_irrelevant_for_pool_answers.
+(* ... and across the lists exactly when the new mount point does not itself match the request *)
+Theorem pool_later_pool_mount_is_irrelevant_unless_it_matches : forall st mp id h s p,
+  mp_match mp h s p = None -> fst (lookup (mount_app st mp id) h s p) = fst (lookup st h s p).
+Proof. exact later_app_mount_irrelevant_unless_it_matches. Qed.
+Print Assumptions pool_later_pool_mount_is_irrelevant_unless_it_matches.
+Theorem pool_new_mount_takes_unrouted_requests_only_if_it_matches : forall st mp id h s p,
+  fst (lookup st h s p) = None ->
+  fst (lookup (mount_legacy st mp id) h s p) = match mp_match mp h s p with Some sub => Some (id, sub) | None => None end /\
+  fst (lookup (mount_app st mp id) h s p) = match mp_match mp h s p with Some sub => Some (id, sub) | None => None end.
+Proof. exact new_mount_takes_unrouted_requests. Qed.
+Print Assumptions pool_new_mount_takes_unrouted_requests_only_if_it_matches.
+(* the order is two-tier, not global registration order: a pool mounted LATER through list `apps` takes a request away from a
+   legacy application mounted earlier (witness; this is the code as it is - see docs/C20.md) *)
+Theorem pool_registration_order_is_two_tier :
+  exists st mp id h s p r, fst (lookup st h s p) = Some r /\ fst (lookup (mount_app st mp id) h s p) <> Some r.
+Proof.
+  exists (mount_legacy ps_empty (MP None None None 0 true) 0%nat), (MP None None None 0 true), 1%nat, [104], [], [47; 97], (0%nat, [47; 97]).
+  vm_compute. split; [reflexivity | discriminate].
+Qed.
+Print Assumptions pool_registration_order_is_two_tier.
+(* destroying one legacy application does not disturb requests that other mounts answer *)
+Theorem pool_kill_does_not_disturb_other_mounts : forall st id h s p i sub,
+  i <> id -> fst (lookup st h s p) = Some (i, sub) -> fst (lookup (kill st id) h s p) = Some (i, sub).
+Proof. exact kill_does_not_disturb_others. Qed.
+Print Assumptions pool_kill_does_not_disturb_other_mounts.
+(* the single-list scan of section 5 is the special case without legacy mounts *)
+Theorem pool_without_legacy_is_the_single_list_scan : forall mps h s p,
+  lookup (PS (number 0 mps) []) h s p = (pool_lookup mps h s p, PS (number 0 mps) []).
+Proof. exact lookup_without_legacy. Qed.
+Print Assumptions pool_without_legacy_is_the_single_list_scan.
+(* end to end over both lists: pool lookup, then the application tree of the selected mount *)
+Theorem request_routing_end_to_end_both_lists : forall st appof h s p m id sub hid args,
+  fst (route_ps st appof h s p m) = RApp id sub (Fired hid args) ->
+  exists pre mp post a,
+    order st = pre ++ (mp, id) :: post /\ Forall (nomatch h s p) pre /\ mp_match mp h s p = Some sub /\
+    appof id = Some a /\ routed a sub (Some m) hid args.
+Proof. exact route_ps_routed. Qed.
+Print Assumptions request_routing_end_to_end_both_lists.
+Theorem request_has_no_pool_iff_no_mount_matches : forall st appof h s p m,
+  (forall id, In id (map snd (order st)) -> appof id <> None) ->
+  (fst (route_ps st appof h s p m) = RNoPool <-> Forall (nomatch h s p) (order st)).
+Proof. exact route_ps_no_pool. Qed.
+Print Assumptions request_has_no_pool_iff_no_mount_matches.
+Theorem http_request_routing_end_to_end_both_lists : forall rules names st appof host uri m id sub hid args,
+  fst (serve_ps rules names st appof host uri m) = Served (RApp id sub (Fired hid args)) ->
+  exists u q sn rest pre mp post a,
+    rw_steps rules uri u /\ cut_at 63 u = (sn ++ rest, q) /\ hd 0 u = 47 /\
+    pick_script names (sn ++ rest) = (sn, rest) /\
+    order st = pre ++ (mp, id) :: post /\ Forall (nomatch host sn (urldecode rest)) pre /\
+    mp_match mp host sn (urldecode rest) = Some sub /\
+    appof id = Some a /\ routed a sub (Some m) hid args.
+Proof. exact serve_ps_end_to_end. Qed.
+Print Assumptions http_request_routing_end_to_end_both_lists.
+Theorem http_front_end_without_legacy_is_serve : forall rules names pools host uri m,
+  fst (serve_ps rules names (PS (number 0 (map fst pools)) []) (fun i => option_map snd (nth_error pools i)) host uri m) =
+  serve rules names pools host uri m.
+Proof. exact serve_ps_without_legacy. Qed.
+Print Assumptions http_front_end_without_legacy_is_serve.
+(* the two-list pool behaves as ONE ordered list, namely order st: if pools / ids describe the order (i-th mount: mount point
+   fst pools_i, identifier ids_i, application snd pools_i = appof ids_i), routing through the complete pool is routing through
+   the single-list model of sections 5 / 10 with the indices renamed - so every theorem about route_request / serve transfers,
+   whatever mixture of factory-, pool- and intrusive_ptr-mounted applications produced the order *)
+Theorem pool_behaves_as_the_single_ordered_list : forall st appof pools ids h s p m,
+  describes st appof pools ids ->
+  fst (route_ps st appof h s p m) = relabel ids (route_request pools h s p m).
+Proof. exact route_ps_is_route_request. Qed.
+Print Assumptions pool_behaves_as_the_single_ordered_list.
+Theorem http_front_end_over_both_lists_is_serve_on_the_order : forall rules names st appof pools ids host uri m,
+  describes st appof pools ids ->
+  fst (serve_ps rules names st appof host uri m) = relabel_served ids (serve rules names pools host uri m).
+Proof. exact serve_ps_is_serve. Qed.
+Print Assumptions http_front_end_over_both_lists_is_serve_on_the_order.
+Theorem every_pool_state_is_described : forall st appof (apps : list app),
+  length apps = length (order st) ->
+  (forall i a, nth_error apps i = Some a -> appof (nth i (map snd (order st)) 0%nat) = Some a) ->
+  describes st appof (combine (map fst (order st)) apps) (map snd (order st)).
+Proof. exact every_state_is_described. Qed.
+Print Assumptions every_pool_state_is_described.
+(* full circle for a root application mounted through mount(intrusive_ptr<application>, mount_point()) *)
+Theorem http_request_reaches_the_routed_handler_legacy_mount : forall keep a url m host hid args id,
+  (forall c, keep c = true -> c <> 37 /\ c <> 43) -> keep 63 = false ->
+  byte_list url -> forallb (fun c => negb (c =? 0)) url = true ->
+  (exists t, url = 47 :: t) -> keep 47 = true ->
+  dispatch a url (Some m) = Fired hid args ->
+  fst (serve_ps [] [] (mount_legacy ps_empty mp_all id) (fun i => if Nat.eqb i id then Some a else None) host (pct_enc keep url) m)
+  = Served (RApp id url (Fired hid args)).
+Proof. exact http_round_trip_legacy_mount. Qed.
+Print Assumptions http_request_reaches_the_routed_handler_legacy_mount.
+Theorem mapper_url_requested_over_http_reaches_its_page_legacy_mount : forall keep root node up pre pg ps vals m host throws id,
+  (forall c, keep c = true -> c <> 37 /\ c <> 43) -> keep 63 = false -> keep 47 = true ->
+  site_wf root -> chain root node up pre -> In pg (site_pages node) ->
+  params_okb (page_route pg) ps = true ->
+  reach root (pre ++ route_fill (page_route pg) ps) (snd pg) ps ->
+  let url := pre ++ route_fill (page_route pg) ps in
+  byte_list url -> forallb (fun c => negb (c =? 0)) url = true -> (exists t, url = 47 :: t) ->
+  map_output throws (real_map (build node, up) vals (page_key pg) ps) = Some url /\
+  fst (serve_ps [] [] (mount_legacy ps_empty mp_all id) (fun i => if Nat.eqb i id then Some (build root) else None) host (pct_enc keep url) m)
+  = Served (RApp id url (Fired (snd pg) ps)).
+Proof. exact http_map_dispatch_legacy_mount. Qed.
+Print Assumptions mapper_url_requested_over_http_reaches_its_page_legacy_mount.
+(* whole histories: mounts of both kinds, destructions of legacy applications, unmounts and lookups in any interleaving.
+   run threads the real state (lookups purge dead entries as a side effect); run_ref is the reference semantics in which a
+   lookup is a pure first-match scan of order st.  The answers coincide for every history - when and whether a purge happens
+   is unobservable -, and each answer is the first match in the order of the state that the operations BEFORE it produced *)
+Theorem pool_history_answers_ignore_purges : forall ops st, run st ops = run_ref st ops.
+Proof. exact history_answers_ignore_purges. Qed.
+Print Assumptions pool_history_answers_ignore_purges.
+Theorem pool_history_lookup_answer : forall before h s p after st,
+  run st (before ++ OLookup h s p :: after) =
+  run st before ++ scan_apps (order (state_after st before)) h s p :: run (state_after st before) after.
+Proof. exact history_lookup_answer. Qed.
+Print Assumptions pool_history_lookup_answer.
+(* how each operation changes the order *)
+Theorem pool_order_of_operations : forall st,
+  (forall mp id, order (mount_app st mp id) = ps_apps st ++ (mp, id) :: live_mounts (ps_legacy st)) /\
+  (forall mp id, order (mount_legacy st mp id) = order st ++ [(mp, id)]) /\
+  (forall id, order (unmount st id) = remove_first id (ps_apps st) ++ live_mounts (ps_legacy st)) /\
+  (forall id, order (kill st id) = ps_apps st ++ filter (other id) (live_mounts (ps_legacy st))) /\
+  (forall h s p, order (snd (lookup st h s p)) = order st).
+Proof. exact order_of_operations. Qed.
+Print Assumptions pool_order_of_operations.
+Example pool_lists_nonvacuous :
+  (* three mount points selecting group 1: /shop followed by anything, /lower-case-word/cart, anything; the request /shop/cart lies in all three languages *)
+  let shop := MP None None (Some (PRoute [RLit [47; 115; 104; 111; 112]; RPar cs_dot false])) 1 true in
+  let cart := MP None None (Some (PRoute [RLit [47]; RPar (CS false [(97, 122)]) true; RLit [47; 99; 97; 114; 116]])) 1 true in
+  let anyp := MP None None (Some (PRoute [RPar cs_dot false])) 1 true in
+  let rq := [47; 115; 104; 111; 112; 47; 99; 97; 114; 116] in
+  let st := mount_legacy (mount_legacy ps_empty shop 0) cart 1 in
+  (* two legacy mounts: the FIRST wins with ITS group (the unguarded loop would answer (1, shop)) *)
+  fst (lookup st [104] [] rq) = Some (0%nat, [47; 99; 97; 114; 116]) /\
+  fst (lookup (mount_legacy (mount_legacy ps_empty cart 1) shop 0) [104] [] rq) = Some (1%nat, [115; 104; 111; 112]) /\
+  (* the first application destroyed: the second answers, the dead entry is erased by that lookup, the answer is stable *)
+  lookup (kill st 0) [104] [] rq = (Some (1%nat, [115; 104; 111; 112]), PS [] [LE cart 1 true]) /\
+  (* a pool mounted later through list apps is consulted first; nothing is purged then *)
+  lookup (mount_app (kill st 0) anyp 2) [104] [] rq = (Some (2%nat, rq), mount_app (kill st 0) anyp 2) /\
+  (* and unmounting it gives the request back to the live legacy mount *)
+  fst (lookup (unmount (mount_app (kill st 0) anyp 2) 2) [104] [] rq) = Some (1%nat, [115; 104; 111; 112]) /\
+  fst (lookup (kill (kill st 0) 1) [104] [] rq) = None /\
+  lookups (kill st 0) [([104], [], rq); ([104], [], [47; 120]); ([104], [], rq)] =
+    [Some (1%nat, [115; 104; 111; 112]); None; Some (1%nat, [115; 104; 111; 112])] /\
+  (* a history: legacy shop, lookup, legacy cart, lookup, shop destroyed, lookup, pool anyp mounted, lookup, unmounted, lookup *)
+  run ps_empty [OMountLegacy shop 0; OLookup [104] [] rq; OMountLegacy cart 1; OLookup [104] [] rq; OKill 0; OLookup [104] [] rq;
+                OMountApp anyp 2; OLookup [104] [] rq; OUnmount 2; OLookup [104] [] rq] =
+    [Some (0%nat, [47; 99; 97; 114; 116]); Some (0%nat, [47; 99; 97; 114; 116]); Some (1%nat, [115; 104; 111; 112]);
+     Some (2%nat, rq); Some (1%nat, [115; 104; 111; 112])].
+Proof. vm_compute. repeat split; reflexivity. Qed.
+
+(* 13. HELPER VALUES in url templates (TmplSpec.v).  A template written as pieces - literal text without braces, {n} with
+   1 <= n <= 9, {name} (non-empty, no braces, not all digits) - is accepted by the scanner of url_mapper::assign and rendered by
+   data::write piece by piece: literal verbatim, {n} -> the n-th parameter, {name} -> named_value hs ov name = the keyword
+   override of that name if the key carries one, otherwise the value set with set_value, otherwise the empty string *)
+Theorem template_with_named_placeholders_renders_piecewise : forall ps params hs ov, forallb tp_ok ps = true ->
+  exists parts idx, parse_tmpl (tmpl_text ps) = Some (parts, idx, tmaxp ps 0) /\
+                    write parts idx params hs ov = render params hs ov ps.
+Proof. exact template_pieces_correct. Qed.
+Print Assumptions template_with_named_placeholders_renders_piecewise.
+(* url_mapper::map(key, params) on a mapper that holds such an entry, helper values vals set with set_value *)
+Theorem mapper_uses_helper_values : forall opts key ps kids root vals params,
+  key <> [] -> key_bad key = false -> forallb tp_ok ps = true -> N.of_nat (length params) = tmaxp ps 0 ->
+  exists u, render params vals [] ps = Some u /\
+            real_map (App opts [MUrl key (tmpl_text ps)] kids root, []) vals key params = Ok (root ++ u).
+Proof. exact map_with_helper_values. Qed.
+Print Assumptions mapper_uses_helper_values.
+(* the keyword form key;kw1,...,kwn: the first n parameters are bound to the keywords and override the helper values *)
+Theorem mapper_keyword_parameters_override_helper_values : forall opts key ps kids root vals kws kvs params,
+  key <> [] -> key_bad key = false -> forallb tp_ok ps = true -> N.of_nat (length params) = tmaxp ps 0 ->
+  kws <> [] -> (forall x, In x kws -> noc 44 x = true) -> (forall x, In x kws -> noc 47 x = true) -> length kvs = length kws ->
+  exists u, render params vals (zip_kw kws kvs) ps = Some u /\
+            real_map (App opts [MUrl key (tmpl_text ps)] kids root, []) vals (key ++ 59 :: joinc 44 kws) (kvs ++ params) = Ok (root ++ u).
+Proof. exact map_with_keyword_overrides. Qed.
+Print Assumptions mapper_keyword_parameters_override_helper_values.
+Example helper_values_nonvacuous :
+  (* template /{lang}/a/{1}: key p, helper value lang=en; map(p,7) = /en/a/7; map(p;lang, ru, 7) = /ru/a/7; without a value: //a/7 *)
+  let ps := [TLit [47]; TNamed [108; 97; 110; 103]; TLit [47; 97; 47]; TPos 1] in
+  let a := App [] [MUrl [112] (tmpl_text ps)] [] [] in
+  let vals := [([108; 97; 110; 103], [101; 110])] in
+  forallb tp_ok ps = true /\ tmpl_text ps = [47; 123; 108; 97; 110; 103; 125; 47; 97; 47; 123; 49; 125] /\
+  real_map (a, []) vals [112] [[55]] = Ok [47; 101; 110; 47; 97; 47; 55] /\
+  real_map (a, []) vals [112; 59; 108; 97; 110; 103] [[114; 117]; [55]] = Ok [47; 114; 117; 47; 97; 47; 55] /\
+  real_map (a, []) [] [112] [[55]] = Ok [47; 47; 97; 47; 55] /\
+  real_map (a, []) vals [112] [] = Err EKey.
 Proof. vm_compute. repeat split; reflexivity. Qed.
